@@ -55,6 +55,15 @@ func genC03(seed int64, tier string) *Scenario {
 	} else if kind == "rollout_deploy" {
 		cmd.Targets = mk("s", 1)
 	}
+	if hasRollout && rng.Intn(3) == 0 {
+		// the split is removed shortly before the command: requests already on
+		// the rollout targets are still there when draining begins
+		stopAt := time.Duration(20+rng.Intn(150)) * time.Millisecond
+		if stopAt < cmd.Delay {
+			op.Ops = append(op.Ops, Op{Kind: "rollout_stop", Service: "web", Delay: cmd.Delay - stopAt})
+			cmd.Delay = stopAt
+		}
+	}
 	op.Ops = append(op.Ops, cmd)
 	if kind == "pause" || kind == "stop" {
 		if rng.Intn(2) == 0 {
